@@ -141,7 +141,8 @@ Definition spec_single (multi keep : bool) (t : list ascii) (values : env) : opt
           match lookups names values with
           | None => None
           | Some rv =>
-              if existsb (fun kv => match snd kv with VNone => true | _ => false end) rv then Some FNone
+              if Nat.ltb 1 (List.length (filter (fun kv => is_file (snd kv)) rv)) then None   (* several file references: refused *)
+              else if existsb (fun kv => match snd kv with VNone => true | _ => false end) rv then Some FNone
               else
                 let lists := filter (fun kv => v_is_list (snd kv)) rv in
                 match lists with
